@@ -15,13 +15,14 @@ RULE = ('Generated (start, end, schedule kind, weekday, pre_market) with end tim
         '21:00 / 14:30 UTC), membership of every instant in the clock\'s event times for the same range under '
         'all four pre/post flag settings, buy-and-hold = start or same time next Monday. Non-trivial = at '
         'least one instant and (range start or end falls on a scheduled date, or a weekend month end lies '
-        'inside, or the start has a non-midnight time of day), or a rejected weekday.')
+        'inside, or the start has a non-midnight time of day), or a rejected weekday.'
+        " Round-10 reach: part `session`: the schedule a BacktestTradingSession builds for itself (every kind, with and without a weekday keyword that has no meaning for the kind) against the calendar, each instant an event of the session's own clock; invalid weekdays that are not strings (-1, -3, -5, 5, 7, None, 2.5; any error type counts as a rejection there).")
 ASSUMPTIONS = [
     'UTC-aware pandas Timestamps; end time-of-day not before the start time-of-day (the stated domain)',
     'dates 1990-2040; ranges up to 800 days (random) and every start date 2019-2024 x 0..70 days (sweep)',
 ]
 
-BAD_WEEKDAYS = ['SAT', 'SUN', '', 'XYZ', 'WEDNESDAY', 'MO', 'W-MON', 'mon ', '1']
+BAD_WEEKDAYS = ['SAT', 'SUN', '', 'XYZ', 'WEDNESDAY', 'MO', 'W-MON', 'mon ', '1', -1, -3, -5, 5, 7, None, 2.5]      # incl. values that are not strings
 
 
 def _instants(dates_, pre):
@@ -40,6 +41,10 @@ def run_case(case):
             q.WeeklyRebalance(start, end, case['weekday'], pre_market=case['pre'])
         except ValueError:
             return Result(['rejected_weekday'], nontrivial=True)
+        except (TypeError, AttributeError):
+            if isinstance(case['weekday'], str):
+                raise
+            return Result(['rejected_weekday', 'rejected_weekday_not_a_string'], nontrivial=True)
         raise Violation('weekday %r was accepted by the weekly schedule' % case['weekday'])
     if kind == 'buy_and_hold':
         got = q.BuyAndHoldRebalance(start).rebalances
@@ -127,6 +132,59 @@ def cases(draw):
     return case
 
 
+def run_session_schedule(case):
+    """The schedule a BacktestTradingSession builds for itself from (start, end, rebalance[, rebalance_weekday]) and
+    tests clock events against: the same dates, stamped at the close, each one an event of the session's own clock."""
+    q = load()
+    start, end = cal.ts6(case['start']), cal.ts6(case['end'])
+    d0, d1 = cal.date3(case['start']), cal.date3(case['end'])
+    kind = case['kind']
+    uni = q.StaticUniverse(['EQ:A'])
+    kw = {}
+    if case.get('weekday') is not None:
+        kw['rebalance_weekday'] = case['weekday']
+    bt = q.BacktestTradingSession(start, end, uni, q.FixedSignalsAlphaModel({'EQ:A': 1.0}), rebalance=kind,
+                                  long_only=True, cash_buffer_percentage=0.05,
+                                  data_handler=q.BacktestDataHandler(uni, data_sources=[]), **kw)
+    got = list(bt.rebalance_schedule)
+    if kind == 'buy_and_hold':
+        d = d0
+        while d.weekday() > 4:
+            d += D.timedelta(days=1)
+        exp = [cal.ts(d, *case['start'][3:])]
+    else:
+        wd = cal.WEEKDAYS.index(case['weekday'].upper()) if kind == 'weekly' else None
+        exp = _instants(cal.schedule_dates(kind, d0, d1, wd), False)
+    if got != exp:
+        k = next((i for i, (g, e) in enumerate(zip(got, exp)) if g != e), min(len(got), len(exp)))
+        raise Violation('the %s schedule of a session %s..%s (rebalance_weekday=%r) differs at %d: got %s expected %s '
+                        '(lengths %d/%d)' % (kind, start, end, case.get('weekday'), k, got[k] if k < len(got) else None,
+                                             exp[k] if k < len(exp) else None, len(got), len(exp)))
+    if kind != 'buy_and_hold':
+        times = set(e.ts for e in bt.sim_engine)
+        for r in got:
+            if r not in times or not bt._is_rebalance_event(r):
+                raise Violation('%s instant %s of a session %s..%s is not an event of the session clock' % (kind, r, start, end))
+    cls = ['session_' + kind]
+    if kind != 'weekly' and case.get('weekday') is not None:
+        cls.append('weekday_keyword_without_weekly')
+    return Result(cls, nontrivial=len(got) > 0 and (kind == 'weekly' or case.get('weekday') is not None or
+                                                    tuple(case['start'][3:]) != (0, 0, 0)), info={'instants': len(got)})
+
+
+@st.composite
+def session_cases(draw):
+    kind = draw(st.sampled_from(['weekly', 'daily', 'end_of_month', 'end_of_month', 'buy_and_hold']))
+    start, end = draw(gen.ranges(dur=gen.short_durations if kind == 'daily' else gen.durations,
+                                 start_tod=st.sampled_from([(0, 0, 0), (14, 30, 0), (9, 0, 0)])))
+    wd = draw(st.sampled_from(cal.WEEKDAYS))
+    if kind != 'weekly' and draw(st.booleans()):
+        wd = None
+    elif draw(st.booleans()):
+        wd = wd.lower()
+    return {'kind': kind, 'start': start, 'end': end, 'weekday': wd}
+
+
 def sweep(tier):
     if tier == 'quick':
         d0, d1, durs = D.date(2020, 1, 1), D.date(2020, 12, 31), (0, 3, 6, 7, 31, 62)
@@ -148,4 +206,5 @@ def sweep(tier):
 PARTS = [
     Part('random', 'hyp', run_case, strategy=cases(), quick=4000, thorough=240000, quick_shards=6),
     Part('sweep', 'sweep', run_case, sweep=sweep, quick_shards=6, exhaustive=True),
+    Part('session', 'hyp', run_session_schedule, strategy=session_cases(), quick=800, thorough=40000, quick_shards=4),
 ]
